@@ -6,7 +6,7 @@ From Coq Require Import List ZArith Bool Lia Permutation Sorted ZifyBool.
 From RP2V Require Import Base.Prelude Base.Assoc Base.Sorting Base.Dec Base.Time Model.Types Model.Generated Model.Txn
   Model.Matcher Model.MatchSpec Model.MatchWf Model.FracSpec Model.Pipeline Model.Computed Model.ComputedSpec
   Proofs.SortingProofs Proofs.FilterProofs Proofs.MatcherProps Proofs.C03Proofs Proofs.PipelineWf
-  Proofs.BalanceProofs Proofs.ComputedProofs Proofs.C07Proofs.
+  Proofs.BalanceProofs Proofs.ComputedProofs Proofs.C07Proofs Proofs.L4Examples.
 Import ListNotations.
 Open Scope Z_scope.
 
@@ -207,4 +207,99 @@ Proof.
   apply (c07_reconciliation allow to_day exs hos sched t fs bl HF); auto.
   - intros evs HE. destruct (Hev evs HE) as [H1 H2]. exact (pipeline_wf h sched t evs Hb HE Hinc Hpos H1 H2 Hnd).
   - exact (build_intras_consistent h t Hb).
+Qed.
+
+(** * non-vacuity: history A of L4Examples.v (two exchanges, two holders, a fee-bearing transfer, income) meets every
+    hypothesis of the end-to-end theorem; both sides are 2.8 coins *)
+Lemma same_offset_same_year evs : (forall e, In e evs -> off_s (t_ts e) = 0) -> hist_same_instant_same_year evs.
+Proof.
+  intros H e e' He He' Hus. unfold t_us in Hus. pose proof (H e He) as H1. pose proof (H e' He') as H2.
+  destruct (t_ts e) as [u o], (t_ts e') as [u' o']. cbn [utc_us off_s] in *. subst. reflexivity.
+Qed.
+
+Example hA_rows_increasing : in_rows_increasing hA.
+Proof. intros i j d Hij. cbn [hA h_ins length] in *. destruct i as [|[|[|i]]], j as [|[|[|j]]]; cbn; lia. Qed.
+Example hA_amounts_positive : amounts_positive hA.
+Proof. intros r Hr. cbn [hA h_ins In] in Hr. repeat (destruct Hr as [<-|Hr]; [reflexivity|]). destruct Hr. Qed.
+Example hA_events_ok : forall evs, taxable_events tA = Ok evs -> hist_same_instant_same_year evs /\ hist_sched_covers schedA evs.
+Proof.
+  intros evs HE. vm_compute in HE. injection HE as <-. split.
+  - apply same_offset_same_year. intros e He. cbn [In] in He. repeat (destruct He as [<-|He]; [reflexivity|]). destruct He.
+  - intros e He. exists 1970, Fifo. split; [left; reflexivity|]. cbn [In] in He.
+    repeat (destruct He as [<-|He]; [vm_compute; discriminate|]). destruct He.
+Qed.
+Example tA_outs_consistent : outs_consistent tA.
+Proof. intros a Ha. cbn [tA t_outs In] in Ha. repeat (destruct Ha as [<-|Ha]; [reflexivity|]). destruct Ha. Qed.
+Example tA_no_dust : no_dust_fee tA.
+Proof. intros a Ha _. cbn [tA t_intras In] in Ha. repeat (destruct Ha as [<-|Ha]; [vm_compute; reflexivity|]). destruct Ha. Qed.
+Example tA_no_cut : no_cut 100000 tA.
+Proof.
+  intros x Hx. vm_compute in Hx. repeat (destruct Hx as [<-|Hx]; [vm_compute; discriminate|]). destruct Hx.
+Qed.
+Example tA_holders_ok : holders_ok tA.
+Proof.
+  intros x Hx. vm_compute in Hx.
+  repeat (destruct Hx as [<-|Hx]; [cbn [txn_holders_ok i_holder o_holder x_from_holder x_to_holder]; unfold holder_ok; lia|]). destruct Hx.
+Qed.
+Example tA_balances : balances false 100000 exsA hosA tA = Ok (cd_balances cdA).
+Proof. vm_compute. reflexivity. Qed.
+
+Example c07_reconciliation_instance : sumZ (map b_final (cd_balances cdA)) = unsold (t_ins tA) fsA.
+Proof.
+  apply (c07_reconciliation_hist false 100000 exsA hosA schedA hA tA fsA (cd_balances cdA)).
+  - exact tA_built.
+  - exact hA_rows_increasing.
+  - exact hA_amounts_positive.
+  - repeat constructor. intros [].
+  - exact hA_events_ok.
+  - exact fsA_matched.
+  - exact tA_outs_consistent.
+  - exact tA_no_dust.
+  - exact tA_no_cut.
+  - exact tA_balances.
+Qed.
+Example c07_reconciliation_value : unsold (t_ins tA) fsA = 28 * U / 10 /\ holder_total 0 (cd_balances cdA) = 18 * U / 10 /\
+  holder_total 1 (cd_balances cdA) = U.
+Proof. vm_compute. repeat split; reflexivity. Qed.
+
+(** * the hypotheses are needed *)
+(** finding F8: a transfer fee of 1e-11 coins at price 1e-8 has a fiat value below 5e-14, is not a taxable event,
+    and the lots keep what the balances have lost *)
+Definition hDust : hist :=
+  {| h_ins := [ r_in 1 18000 0 0 BUY 1000 (1 * U) ]; h_outs := [];
+     h_intras := [ r_intra 2 18010 0 0 1 0 1000 (1 * U) (1 * U - 1) ] |}.
+Theorem c07_reconciliation_dust_refuted : exists h sched t fs bl,
+  build h = Ok t /\ fractions_of gen_always_repush sched t = Ok fs /\ balances false 100000 exsA hosA t = Ok bl /\
+  outs_consistent t /\ intras_consistent t /\ no_cut 100000 t /\
+  sumZ (map b_final bl) = unsold (t_ins t) fs - 1.
+Proof.
+  destruct (build hDust) as [t|] eqn:B; [|vm_compute in B; discriminate B].
+  destruct (fractions_of gen_always_repush schedA t) as [fs|] eqn:F; [|vm_compute in B; injection B as <-; vm_compute in F; discriminate F].
+  destruct (balances false 100000 exsA hosA t) as [bl|] eqn:L; [|vm_compute in B; injection B as <-; vm_compute in L; discriminate L].
+  exists hDust, schedA, t, fs, bl. split; [exact B|]. split; [exact F|]. split; [exact L|].
+  vm_compute in B. injection B as <-. vm_compute in F. injection F as <-. vm_compute in L. injection L as <-.
+  split; [intros a []|]. split; [intros a [<-|[]]; reflexivity|].
+  split; [intros x Hx; vm_compute in Hx; repeat (destruct Hx as [<-|Hx]; [vm_compute; discriminate|]); destruct Hx|].
+  vm_compute. reflexivity.
+Qed.
+
+(** a supplied crypto_out_with_fee that is not amount + fee is what the matcher consumes, while the balances use amount + fee *)
+Definition hIncons : hist :=
+  {| h_ins := [ r_in 1 18000 0 0 BUY (100 * U) (5 * U) ];
+     h_outs := [ {| ro_row := 2; ro_ts := noon 18010; ro_exch := 0; ro_holder := 0; ro_type := SELL; ro_spot := 100 * U;
+                    ro_crypto_out_no_fee := 1 * U; ro_crypto_fee := 0; ro_crypto_out_with_fee := Some (2 * U);
+                    ro_fiat_out_no_fee := None; ro_fiat_fee := None |} ];
+     h_intras := [] |}.
+Theorem c07_reconciliation_needs_consistent_outs : exists h sched t fs bl,
+  build h = Ok t /\ fractions_of gen_always_repush sched t = Ok fs /\ balances false 100000 exsA hosA t = Ok bl /\
+  no_dust_fee t /\ no_cut 100000 t /\ sumZ (map b_final bl) <> unsold (t_ins t) fs.
+Proof.
+  destruct (build hIncons) as [t|] eqn:B; [|vm_compute in B; discriminate B].
+  destruct (fractions_of gen_always_repush schedA t) as [fs|] eqn:F; [|vm_compute in B; injection B as <-; vm_compute in F; discriminate F].
+  destruct (balances false 100000 exsA hosA t) as [bl|] eqn:L; [|vm_compute in B; injection B as <-; vm_compute in L; discriminate L].
+  exists hIncons, schedA, t, fs, bl. split; [exact B|]. split; [exact F|]. split; [exact L|].
+  vm_compute in B. injection B as <-. vm_compute in F. injection F as <-. vm_compute in L. injection L as <-.
+  split; [intros a []|].
+  split; [intros x Hx; vm_compute in Hx; repeat (destruct Hx as [<-|Hx]; [vm_compute; discriminate|]); destruct Hx|].
+  vm_compute. discriminate.
 Qed.
